@@ -15,7 +15,8 @@ FUNCTIONS = ['frappy.server.Server._processCfg', 'frappy.secnode.SecNode.{create
 ASSUMPTIONS = ['up to 3 (quick) / 4 (thorough) modules of one catalogue class with an optional attachment each (out-degree <= 1, cycles and self '
                'loops included), attachment target, declaration order, polling on/off, configured write, failing early/late initialisation, wrong '
                'base class and missing target chosen by symbolic selectors',
-               'poll threads are fake thread objects whose body runs in the calling thread when the start event is waited for (one legal schedule)',
+               'poll threads are fake thread objects whose body runs in the calling thread, either at once when the thread is created or when the '
+               'start events are waited for (chosen per thread by a symbolic selector)',
                'modules resolve their attachment in initModule (as HasIO does)']
 REQUIRED_TAGS = ['started', 'rejected', 'shutdown']
 LIMITS = {'quick': {'max_paths': 60000, 'max_s': 170}, 'thorough': {'max_paths': 600000, 'max_s': 1200}}
@@ -97,6 +98,11 @@ def build_server(env, w, module_cfg):
         t = FakeThread(w, func, args)
         w.threads.append(t)
         w.log.append(('thread-created', getattr(func, '__self__', None) and func.__self__.name))
+        # schedule: a thread may finish its first round at once (before the next module is started)
+        # or only while the server waits for the start events
+        eager = getattr(w, 'eager', None)
+        if eager is not None and eager(len(w.threads) - 1):
+            t.run()
         return t
     mb.mkthread = mkthread
 
@@ -242,10 +248,14 @@ def run_lifecycle(env, p):
     orig_wait = threading.Event.wait
 
     def fake_wait(self, timeout=None):
+        if self._flag:
+            return True        # as the real Event.wait: no waiting when already set
         for t in list(w.threads):
             t.run()
         return self._flag
     threading.Event.wait = fake_wait
+    if n <= 2 or flaw == 'none':
+        w.eager = lambda i: bool(env.choice(f'eager{i}', 2)) if i < 2 else False
     ready = False
     try:
         try:
